@@ -577,7 +577,25 @@ pub enum Val {
     Tid(u128),
     Sid(u64),
     Kind(emit::Kind),
+    /// `Value::from(&[i64; N])` / `Value::from(&[f64; N])`, N ≤ 6 (value_bag's own sequence capture, the form
+    /// `#[emit::as_value]` arrays take)
+    ArrI64(Vec<i64>),
+    ArrF64(Vec<f64>),
     Sv(Tree),
+}
+
+macro_rules! arr_value {
+    ($v:expr, $t:ty) => {
+        match $v.len() {
+            0 => Value::from(<&[$t; 0]>::try_from(&$v[..]).unwrap()),
+            1 => Value::from(<&[$t; 1]>::try_from(&$v[..]).unwrap()),
+            2 => Value::from(<&[$t; 2]>::try_from(&$v[..]).unwrap()),
+            3 => Value::from(<&[$t; 3]>::try_from(&$v[..]).unwrap()),
+            4 => Value::from(<&[$t; 4]>::try_from(&$v[..]).unwrap()),
+            5 => Value::from(<&[$t; 5]>::try_from(&$v[..]).unwrap()),
+            _ => Value::from(<&[$t; 6]>::try_from(&$v[..6]).unwrap()),
+        }
+    };
 }
 
 /// The realised form of a `Val`: owns whatever the borrowed `emit::Value` points into.
@@ -611,6 +629,8 @@ impl Real {
             Real::Plain(Val::Lvl(l)) => emit::value::ToValue::to_value(l),
             Real::Plain(Val::Kind(k)) => emit::value::ToValue::to_value(k),
             Real::Plain(Val::Sv(t)) => Value::from_sval(t),
+            Real::Plain(Val::ArrI64(v)) => arr_value!(v, i64),
+            Real::Plain(Val::ArrF64(v)) => arr_value!(v, f64),
             Real::Dbg(d) => Value::from_debug(d),
             Real::Err(c) => Value::capture_error(c),
             Real::Tid(t) => emit::value::ToValue::to_value(t),
@@ -648,6 +668,17 @@ impl Val {
                 let disp = Value::from_sval(t).to_string();
                 Sexp::tagged("sv", vec![t.to_sexp(), Sexp::str(&disp)])
             }
+            Val::ArrI64(v) => Sexp::tagged(
+                "arr-i64",
+                vec![Sexp::list(v.iter().map(Sexp::num).collect()), Sexp::str(&arr_value!(v, i64).to_string())],
+            ),
+            Val::ArrF64(v) => Sexp::tagged(
+                "arr-f64",
+                vec![
+                    Sexp::list(v.iter().map(|x| Sexp::list(f64_to_sexp(*x).as_list().unwrap()[1..].to_vec())).collect()),
+                    Sexp::str(&arr_value!(v, f64).to_string()),
+                ],
+            ),
         }
     }
 
@@ -690,6 +721,21 @@ impl Val {
                 "metric" => emit::Kind::Metric,
                 _ => return None,
             })),
+            ("arr-i64", 2) => {
+                let v: Vec<i64> = args[0].as_list()?.iter().map(|x| x.as_i64()).collect::<Option<_>>()?;
+                if v.len() > 6 || (!loose() && args[1].as_string()? != arr_value!(v, i64).to_string()) {
+                    return None;
+                }
+                Some(Val::ArrI64(v))
+            }
+            ("arr-f64", 2) => {
+                let v: Vec<f64> =
+                    args[0].as_list()?.iter().map(|x| f64_parse(x.as_list()?)).collect::<Option<_>>()?;
+                if v.len() > 6 || (!loose() && args[1].as_string()? != arr_value!(v, f64).to_string()) {
+                    return None;
+                }
+                Some(Val::ArrF64(v))
+            }
             ("sv", 2) => {
                 let t = Tree::parse(&args[0])?;
                 // the Display text is an output of sval_fmt; the case must carry the real one
@@ -705,6 +751,7 @@ impl Val {
     pub fn float_tokens_ok(&self) -> bool {
         match self {
             Val::F64(x) => !x.is_finite() || is_json_number(&json_tok_f64(*x)),
+            Val::ArrF64(v) => v.iter().all(|x| !x.is_finite() || is_json_number(&json_tok_f64(*x))),
             Val::Sv(t) => t.float_tokens_ok(),
             _ => true,
         }
